@@ -677,9 +677,43 @@ func c19Real(w *W) {
 	if when == "before-listen" && !set() {
 		return
 	}
+	// ipc: the permissions the socket file is to get (every accepted value,
+	// zero included, is what the file has after Listen)
+	wantMode, chmod := os.FileMode(0), false
+	if tran == "ipc" && w.Choose(simrt.SShape, 3) != 0 {
+		chmod = true
+		wantMode = []os.FileMode{0, 0600, 0660, 0777, 0400}[w.Choose(simrt.SShape, 5)]
+		var v interface{} = uint32(wantMode)
+		if w.Choose(simrt.SShape, 2) == 0 {
+			v = wantMode
+		}
+		if err := l.SetOption("UNIX-IPC-CHMOD", v); err != nil {
+			w.Failf("C19/value-rejected:UNIX-IPC-CHMOD", "ipc listener SetOption(UNIX-IPC-CHMOD, %#o) returned %v", wantMode, err)
+			return
+		}
+		// a value outside the permission bits is refused and changes nothing
+		if err := l.SetOption("UNIX-IPC-CHMOD", uint32(01000)); err != mangos.ErrBadValue {
+			w.Failf("C19/bad-value-accepted", "ipc listener SetOption(UNIX-IPC-CHMOD, 01000) returned %v", errName(err))
+			return
+		}
+		w.SetShape("chmod", fmt.Sprintf("%#o", wantMode))
+	}
 	if err := l.Listen(); err != nil {
 		w.Failf("HARNESS/listen", "%v", err)
 		return
+	}
+	if chmod {
+		st, err := os.Stat(strings.TrimPrefix(url, "ipc://"))
+		if err != nil || st.Mode().Perm() != wantMode {
+			w.Failf("C19/option-not-effective:UNIX-IPC-CHMOD", "ipc listener accepted UNIX-IPC-CHMOD %#o; after Listen the socket file has (%v, %v)", wantMode, st.Mode().Perm(), err)
+			return
+		}
+		w.Probe("ipc-permissions-effective")
+		if wantMode&0600 != 0600 {
+			// nobody (not even we) may connect: the data part does not apply
+			w.Delivery++
+			return
+		}
 	}
 	if when == "after-listen" && !set() {
 		return
@@ -725,7 +759,7 @@ func c19Real(w *W) {
 }
 
 func init() {
-	register(&Scenario{Name: "option-effects-real-transports", Prop: "C19", Engine: "R", Weight: 1, Run: c19Real})
+	register(&Scenario{Name: "option-effects-real-transports", Prop: "C19", Engine: "R", Weight: 3, Run: c19Real})
 }
 
 // c19WSOrigin: the WebSocket listener's origin check follows the option
